@@ -21,7 +21,7 @@ RULE = ("E1: (a) 9 schemes x 28 hosts x 9 ports x {plain, userinfo, fragment} wi
         "percent-encoded in URI text and raw in options, for three host kinds; (b2) sub-delims, ':' and '@' standing unescaped in path segments and query items; the "
         "destination (scheme, host, port) of every accepted authority; (c) verbatim bad escapes; (d) every string of length <= 3 (5 in the thorough tier) "
         "over {c o a p : / ? # @ [ ] % .} alone and behind 'coap:', 'coap://', 'coap://h', 'coap://h:', 'coaps+ws://[', 'coap://][', 'coap://@[', 'coap://[::1]'; (e) host/port split-join pairs; (f) composition with Uri-Host / Uri-Port options over 8 destinations. "
-        "distinct = distinct (family, outcome class, shape)")
+        "Every accepted CoAP URI is also set on a message that carried another URI before (set again, copy(uri=), after a CoAP and after a foreign-scheme URI) and must give the options of a fresh message. distinct = distinct (family, outcome class, shape)")
 ASSUMPTIONS = [
     "incomplete percent sequences ('%zz') may be rejected or passed through literally (RFC 3986 makes them invalid; the library documents tolerance)",
     "IPvFuture literals may be rejected or accepted, but only with the documented URL errors",
